@@ -61,6 +61,13 @@ def generate(rng, tier):
         # unwind infos are spread over .rdata and .xdata; .xdata begins exactly where .rdata ends
         ids = sorted(prog["uinfos"])
         rdata_ids = set(ids[: rng.range(0, len(ids) - 1)]) if pi % 2 == 0 else set()
+        if pi % 2 == 0:
+            # ... and in these images every chained info lies in the other section than its parent (seeded change C03-16
+            # looked chained infos up only in the primary info's section)
+            for i in ids:
+                par = prog["uinfos"][i].get("chain")
+                if par is not None:
+                    (rdata_ids.discard if par in rdata_ids else rdata_ids.add)(i)
         petruth_mod(s, prog, base, notext, rdata_ids)
         s.add("new U"); s.add("add U M")
         nsc = 25 if tier == "quick" else 80
